@@ -639,10 +639,52 @@ def run(ctx):
     ctx.guard(_p0, ctx, py)
     C08._joint(ctx, py)
     ctx.guard(_recursion, ctx, py)
+    ctx.guard(_model_inputs, ctx, py)
     ctx.guard(_result, ctx, py)
     from props import helpers
     helpers.interpolate_pva(ctx, py, "C11")
     ctx.guard(_standin, ctx, py)
+
+    # frame of the modules under contract (no state kept between calls, arguments left alone): same analysis as C19
+    from props import C19 as _C19
+    ctx.guard(_C19.frame_obligations, ctx, py, "C11", {'filters', 'kalman'})
+
+
+def _model_inputs(ctx, py):
+    """The model whose estimator the filter is: the process matrices of the step (time, next_time] are built from the
+    increments of exactly that interval, and z, H are evaluated at the measurement's own time.  These are scheduling
+    obligations of the cut loop (shared with C10), re-established here on the scenarios with increments supplied."""
+    from props import C10
+    from pvx.zdomain import explore_z, Concretization
+    code, info = C10.build(py)
+    t0 = time.time()
+    agg = {}
+    n_paths = 0
+    for mode in ("one", "two"):
+        try:
+            paths = explore_z(lambda: C10.scenario(py, code, mode, True), max_paths=600)
+        except Concretization as exc:
+            ctx.add(Ob("C11.engine.model_inputs.%s" % mode, "guard", "error", "python", 0.0, "construct outside the executable subset: %r" % (exc,)))
+            continue
+        for pa, res in paths:
+            n_paths += 1
+            for (name, st, detail, cex) in res["obligations"]:
+                if not name.startswith(("loop.batch.", "loop.measurement.own_time", "loop.measurement.each_sensor_once")):
+                    continue
+                cur = agg.get(name)
+                rank = dict(proved=0, undecided=1, failed=2)[st]
+                if cur is None or rank > cur[0]:
+                    agg[name] = (rank, st, detail, cex, 1 if cur is None else cur[4] + 1)
+                else:
+                    agg[name] = cur[:4] + (cur[4] + 1,)
+    ctx.paths += n_paths
+    need = ["loop.batch.label_slice", "loop.batch.one_per_propagation", "loop.measurement.own_time"]
+    for name in need:
+        if name not in agg and n_paths > 0:       # (no path at all: the engine error above already says so)
+            ctx.ob("C11.model." + name, "c", False, "z3", 0.0, "no such obligation was generated on %d paths (vacuous)" % n_paths)
+    for name in sorted(agg):
+        rank, st, detail, cex, count = agg[name]
+        ctx.add(Ob("C11.model." + name, "c", st, "z3(cut loop)", (time.time() - t0) / max(1, len(agg)), "%s [%d path instances]" % (detail, count), cex=cex))
 
 
 def replay(obligation, cex):
